@@ -235,6 +235,9 @@ c = REG.contract(M + "arbitrary_element")
 c.params(seed="bytes").returns("obj:" + ELT).pure()
 c.loop(1, "spec.ed_ae_from(y, plus) == spec.ed_ae_from(y, 0)", name="first-good-point")
 c.loop(1, "plus >= 0", name="counter")
+# the same search written by stepping the candidate itself (y = (y+1) % Q) instead of a counter
+c.loop_variant(1, 1, "spec.ed_ae_from(y, 0) == spec.ed_ae(seed)", name="first-good-point")
+c.loop_variant(1, 1, "0 <= y and y < Q", name="candidate-reduced")
 c.lemma("after:P8", "ed_insub_def", "spec.ed_view(P8)")
 c.lemma("after:P8", "ed_cofactor", "spec.ed_view(P)")
 c.ensures("spec.ed_view(result) == spec.ed_ae(seed)", name="published-construction", tags="C14 C03")
